@@ -64,6 +64,14 @@ class PB(_Proc):
     pass
 
 
+class PADerived(PA):            # a world keeps one processor per EXACT type: PA and PADerived coexist
+    pass
+
+
+class PUpdSub(Rec, desper.OnUpdateProcessor):       # derived from a default processor of file handles
+    pass
+
+
 class PLate(_Proc):
     priority = 5
 
